@@ -24,8 +24,9 @@ def run(ctx):
   for n in walk_local(f.node):
     if isinstance(n, ast.Assign) and isinstance(n.value, ast.Call) and u(n.value.func) == "''.join":
       joined = u(n.targets[0])
-    if isinstance(n, ast.Assign) and isinstance(n.value, ast.Subscript) and isinstance(n.value.slice, ast.Slice) and u(n.value.value) == 'line':
-      raw = u(n.targets[0])
+    if isinstance(n, ast.Assign) and isinstance(n.value, ast.Subscript) and isinstance(n.value.slice, ast.Slice) and \
+        (u(n.value.value) == 'line' or u(n.value.value).endswith('.line')):
+      raw = u(n.targets[0])      # a slice of the source line of a token
   # roles: the '/'-components of the joined text
   split_names, before_last, last = set(), set(), set()
 
